@@ -106,17 +106,22 @@ func c28run(run int, mode string, seed uint64, writesPerNode int) (o c28obs) {
 	params := &opcua.SubscriptionParameters{Interval: 10 * time.Millisecond}
 	var sub *monitor.Subscription
 	stopConsumer := make(chan struct{})
+	var paused atomic.Bool
 	if mode == "slowchan" {
 		ch := make(chan *monitor.DataChangeMessage, 1)
 		sub, err = nm.ChanSubscribe(ctx, params, ch, ts.Nodes[0].String(), ts.Nodes[1].String())
 		go func() {
 			for {
+				if paused.Load() { // a consumer that stalls: the monitor's pump drops what does not fit
+					time.Sleep(time.Millisecond)
+					continue
+				}
 				select {
 				case <-stopConsumer:
 					return
 				case m := <-ch:
 					record(m)
-					time.Sleep(3 * time.Millisecond) // a slow consumer
+					time.Sleep(time.Millisecond)
 				}
 			}
 		}()
@@ -200,7 +205,15 @@ func c28run(run int, mode string, seed uint64, writesPerNode int) (o c28obs) {
 		return
 	}
 	monitored[1] = true
+	if mode == "slowchan" {
+		waitProgress(0.9)
+		paused.Store(true)
+	}
 	wg.Wait()
+	if mode == "slowchan" {
+		time.Sleep(300 * time.Millisecond) // everything published meanwhile is dropped by the pump
+		paused.Store(false)
+	}
 
 	// quiescence: no delivery for 15 publishing intervals (bounded)
 	last, lastChange := ndeliv(), time.Now()
